@@ -100,7 +100,7 @@ CLAIMED['C19'] = dict(category='proof',
         'the profile the rises are read from is the row of the peak pin at the peak height (contract on '
         'Assembly._update_peak_pin_temps, shared with C15).',
    note=_ASSUME + 'Precondition IN_sigma > 0. Sizes 1-2 assemblies x 1-3 subfactors x 1-5 terms. eval() expressions and CSV '
-        'parsing are not decided.',
+        'parsing are not decided symbolically; the five built-in tables are run through the real reader as a BOUNDED run-time contract.',
    technique='contract-based deductive verification (proxy execution, exact normaliser with sqrt relations, sign certificates)')
 CLAIMED['C20'] = dict(category='proof',
    text='Orificing._check_new_group is proved to be the spread test; one iteration of the grouping loop (cut from the real '
